@@ -161,6 +161,10 @@ struct Obs {
     std::vector<UPair> edges;
     std::vector<unsigned> vertices;
     std::string extra; // consistency remarks gathered while observing (empty = fine)
+    // light mode (graphs with hundreds of vertices): no all-pairs tables, only these sampled pairs
+    bool light = false;
+    std::vector<UPair> samplePairs;
+    std::vector<std::string> sampleObs; // "has|val|valnt" per sampled pair
 };
 
 inline std::string fmtW(double w) {
@@ -187,7 +191,92 @@ std::string guarded(F f) {
 struct ObsOptions {
     bool hasLabelSets = false; // hasEdge(i,j,l) for every l of the alphabet (C03)
     size_t edgeStepCap = 0;    // 0: n*n*64+16
+    bool light = false;        // skip the O(n^2) tables; query only `pairs`
+    std::vector<UPair> pairs;
 };
+
+// value getters of one pair, as strings (shared by the full and the light observation)
+template <class G>
+void pairStrings(const G &g, unsigned i, unsigned j, std::string &val, std::string &valnt) {
+    typedef GT<G> T;
+    typedef typename T::Label L;
+    if constexpr (T::fam == 'L') {
+        if constexpr (T::nolabel) {
+            val = guarded([&] { (void)g.getEdgeLabel(i, j); return std::string("-"); });
+            valnt = guarded([&] { (void)g.getEdgeLabel(i, j, false); return std::string("-"); });
+        } else {
+            val = guarded([&] { return "L" + std::to_string(labelIndex<L>(g.getEdgeLabel(i, j))); });
+            valnt = guarded([&] { return "L" + std::to_string(labelIndex<L>(g.getEdgeLabel(i, j, false))); });
+        }
+    } else if constexpr (T::fam == 'M') {
+        val = guarded([&] { return std::to_string(g.getEdgeMultiplicity(i, j)); });
+        valnt = val;
+    } else {
+        val = guarded([&] { return fmtW(g.getEdgeWeight(i, j)); });
+        valnt = guarded([&] { return fmtW(g.getEdgeWeight(i, j, false)); });
+    }
+}
+
+// Light observation for graphs with hundreds of vertices: sizes, totals, vertex iteration, neighbour lists,
+// degrees (single and vector forms), edges(), and the getters on the sampled pairs only.
+template <class G>
+void observeLight(const G &g, Obs &o, const ObsOptions &opt) {
+    typedef GT<G> T;
+    size_t n = o.n;
+    o.light = true;
+    o.nb.resize(n);
+    o.dA.resize(n);
+    o.dB.resize(n);
+    for (unsigned i = 0; i < n; ++i) {
+        const auto &lst = g.getOutNeighbours(i);
+        o.nb[i].assign(lst.begin(), lst.end());
+        if constexpr (T::directed) {
+            o.dA[i] = g.getOutDegree(i);
+            o.dB[i] = (size_t)-1; // getInDegree scans all edges: only queried for the sampled vertices below
+        } else {
+            o.dA[i] = g.getDegree(i);
+            o.dB[i] = g.getDegree(i, false);
+        }
+    }
+    if constexpr (T::directed) {
+        o.dAv = g.getOutDegrees();
+        o.dBv = g.getInDegrees();
+    } else {
+        o.dAv = g.getDegrees();
+        o.dBv = g.getDegrees(false);
+    }
+    {
+        size_t cap = n * 8 + 4096;
+        auto er = g.edges();
+        auto en = er.end();
+        size_t steps = 0;
+        for (auto it = er.begin(); it != en; ++it) {
+            if (++steps > cap) {
+                o.extra += "edges() did not terminate; ";
+                break;
+            }
+            BaseGraph::Edge ed = *it;
+            o.edges.emplace_back(ed.first, ed.second);
+        }
+    }
+    if constexpr (T::directed) {
+        for (auto &p : opt.pairs) {
+            if (p.first < n)
+                o.dB[p.first] = g.getInDegree(p.first);
+            if (p.second < n)
+                o.dB[p.second] = g.getInDegree(p.second);
+        }
+        for (unsigned i = 0; i < n; i += 16)
+            o.dB[i] = g.getInDegree(i);
+    }
+    o.samplePairs = opt.pairs;
+    for (auto &p : opt.pairs) {
+        std::string val, valnt;
+        std::string h = guarded([&] { return std::string(g.hasEdge(p.first, p.second) ? "1" : "0"); });
+        pairStrings(g, p.first, p.second, val, valnt);
+        o.sampleObs.push_back(h + "|" + val + "|" + valnt);
+    }
+}
 
 template <class G>
 void observe(const G &g, Obs &o, const ObsOptions &opt = ObsOptions()) {
@@ -210,6 +299,10 @@ void observe(const G &g, Obs &o, const ObsOptions &opt = ObsOptions()) {
         size_t cap = n + 4;
         for (auto it = g.begin(); it != g.end() && o.vertices.size() < cap; ++it)
             o.vertices.push_back(*it);
+    }
+    if (opt.light) {
+        observeLight(g, o, opt);
+        return;
     }
     o.nb.resize(n);
     o.has.assign(n, std::vector<int>(n, 0));
@@ -379,6 +472,11 @@ inline std::string obsText(const Obs &o, bool exact, bool directed) {
         num(p.second);
         s += ", ";
     }
+    if (o.light) {
+        s += "\nS ";
+        for (size_t k = 0; k < o.samplePairs.size(); ++k)
+            s += std::to_string(o.samplePairs[k].first) + "," + std::to_string(o.samplePairs[k].second) + "=" + o.sampleObs[k] + ";";
+    }
     s += "\nX " + o.extra + "\n";
     return s;
 }
@@ -387,6 +485,8 @@ inline std::string obsText(const Obs &o, bool exact, bool directed) {
 struct ExpectOptions {
     bool hasLabelSets = false;
     bool dupState = false; // some pair has copies>1
+    bool light = false;
+    std::vector<UPair> pairs;
 };
 
 inline void expectedObs(const Model &m, Obs &o, const ExpectOptions &opt) {
@@ -394,23 +494,25 @@ inline void expectedObs(const Model &m, Obs &o, const ExpectOptions &opt) {
     size_t n = m.n;
     o.n = n;
     o.nb.resize(n);
-    o.has.assign(n, std::vector<int>(n, 0));
-    o.val.assign(n, std::vector<std::string>(n));
-    o.valnt.assign(n, std::vector<std::string>(n));
+    o.light = opt.light;
+    size_t tn = opt.light ? 0 : n; // light mode: no all-pairs tables
+    o.has.assign(tn, std::vector<int>(tn, 0));
+    o.val.assign(tn, std::vector<std::string>(tn));
+    o.valnt.assign(tn, std::vector<std::string>(tn));
     if (opt.hasLabelSets)
-        o.hasl.assign(n, std::vector<std::string>(n));
+        o.hasl.assign(tn, std::vector<std::string>(tn));
     o.dA.assign(n, 0);
     o.dB.assign(n, 0);
-    o.adj.assign(n, std::vector<size_t>(n, 0));
+    o.adj.assign(tn, std::vector<size_t>(tn, 0));
     if (!m.directed)
-        o.adj1.assign(n, std::vector<size_t>(n, 0));
+        o.adj1.assign(tn, std::vector<size_t>(tn, 0));
     if (m.fam == 'W')
-        o.wm.assign(n, std::vector<std::string>(n, fmtW(0.0)));
+        o.wm.assign(tn, std::vector<std::string>(tn, fmtW(0.0)));
     for (unsigned v = 0; v < n; ++v)
         o.vertices.push_back(v);
     // absent defaults
-    for (unsigned i = 0; i < n; ++i)
-        for (unsigned j = 0; j < n; ++j) {
+    for (unsigned i = 0; i < tn; ++i)
+        for (unsigned j = 0; j < tn; ++j) {
             if (m.fam == 'L') {
                 if (m.nolabel) {
                     o.val[i][j] = "-";
@@ -448,6 +550,8 @@ inline void expectedObs(const Model &m, Obs &o, const ExpectOptions &opt) {
             val = valnt = fmtW(v.w);
         }
         auto setPair = [&](unsigned a, unsigned b) {
+            if (opt.light)
+                return;
             o.has[a][b] = 1;
             o.val[a][b] = val;
             o.valnt[a][b] = valnt;
@@ -475,21 +579,44 @@ inline void expectedObs(const Model &m, Obs &o, const ExpectOptions &opt) {
         if (m.directed) {
             o.dA[i] += w;
             o.dB[j] += w;
-            o.adj[i][j] += w;
+            if (!opt.light)
+                o.adj[i][j] += w;
         } else if (i == j) {
             o.dA[i] += 2 * w;
             o.dB[i] += w;
-            o.adj[i][i] += 2 * w;
-            o.adj1[i][i] += w;
+            if (!opt.light) {
+                o.adj[i][i] += 2 * w;
+                o.adj1[i][i] += w;
+            }
         } else {
             o.dA[i] += w;
             o.dA[j] += w;
             o.dB[i] += w;
             o.dB[j] += w;
-            o.adj[i][j] += w;
-            o.adj[j][i] += w;
-            o.adj1[i][j] += w;
-            o.adj1[j][i] += w;
+            if (!opt.light) {
+                o.adj[i][j] += w;
+                o.adj[j][i] += w;
+                o.adj1[i][j] += w;
+                o.adj1[j][i] += w;
+            }
+        }
+    }
+    if (opt.light) {
+        // the sampled pairs
+        o.samplePairs = opt.pairs;
+        for (auto &p : opt.pairs) {
+            std::string val, valnt;
+            const MVal *v = (p.first < n && p.second < n) ? m.find(p.first, p.second) : nullptr;
+            if (m.fam == 'L') {
+                val = m.nolabel ? "-" : (v ? "L" + std::to_string(v->k) : "!invalid_argument");
+                valnt = m.nolabel ? "-" : (v ? "L" + std::to_string(v->k) : "L0");
+            } else if (m.fam == 'M') {
+                val = valnt = v ? std::to_string(v->k) : "0";
+            } else {
+                val = v ? fmtW(v->w) : "!invalid_argument";
+                valnt = v ? fmtW(v->w) : fmtW(0.0);
+            }
+            o.sampleObs.push_back(std::string(v ? "1" : "0") + "|" + val + "|" + valnt);
         }
     }
     o.dAv = o.dA;
@@ -547,7 +674,57 @@ inline std::string compareObs(const Obs &got, const Obs &exp, const CmpOptions &
         return fail("getSize", std::to_string(got.n), std::to_string(exp.n));
     size_t n = exp.n;
     if (got.vertices != exp.vertices)
-        return fail("vertex-iteration", showVec(got.vertices), showVec(exp.vertices));
+        return fail("vertex-iteration", got.vertices.size() > 40 ? std::to_string(got.vertices.size()) + " vertices" : showVec(got.vertices), "0.." + std::to_string(n) + "-1");
+    if (exp.light) {
+        // graphs with hundreds of vertices: lists, counts, totals, degrees, edges() and the sampled pairs
+        if (got.edgeNumber != exp.edgeNumber)
+            return fail("getEdgeNumber", std::to_string(got.edgeNumber), std::to_string(exp.edgeNumber));
+        for (unsigned i = 0; i < n; ++i) {
+            auto a = got.nb[i], b = exp.nb[i];
+            std::sort(a.begin(), a.end());
+            std::sort(b.begin(), b.end());
+            if (a != b)
+                return fail("getOutNeighbours", "N(" + std::to_string(i) + ")=" + showVec(got.nb[i]), showVec(b));
+        }
+        for (size_t k = 0; k < exp.samplePairs.size(); ++k)
+            if (k >= got.sampleObs.size() || got.sampleObs[k] != exp.sampleObs[k])
+                return fail(c.fam == 'L' ? "hasEdge/getEdgeLabel" : c.fam == 'M' ? "hasEdge/getEdgeMultiplicity" : "hasEdge/getEdgeWeight",
+                            "(" + std::to_string(exp.samplePairs[k].first) + "," + std::to_string(exp.samplePairs[k].second) + ")=" + (k < got.sampleObs.size() ? got.sampleObs[k] : "?"),
+                            exp.sampleObs[k]);
+        if (exp.hasTotalCount && got.totalCount != exp.totalCount)
+            return fail("getTotalEdgeNumber", std::to_string(got.totalCount), std::to_string(exp.totalCount));
+        if (exp.hasTotalW) {
+            long double d = got.totalW - exp.totalW;
+            if (d < 0)
+                d = -d;
+            if (c.exactWeights ? (got.totalW != exp.totalW) : !(d <= c.weightTol)) {
+                observer = "getTotalWeight";
+                return "getTotalWeight: differs from the model";
+            }
+        }
+        if (!(c.fam == 'M' && c.dupState)) {
+            for (unsigned i = 0; i < n; ++i) {
+                if (got.dA[i] != exp.dA[i] || got.dAv[i] != exp.dAv[i])
+                    return fail(c.directed ? "getOutDegree(s)" : "getDegree(s)", "vertex " + std::to_string(i) + ": " + std::to_string(got.dA[i]) + "/" + std::to_string(got.dAv[i]), std::to_string(exp.dA[i]));
+                if ((got.dB[i] != (size_t)-1 && got.dB[i] != exp.dB[i]) || got.dBv[i] != exp.dBv[i])
+                    return fail(c.directed ? "getInDegree(s)" : "getDegree(s)(false)", "vertex " + std::to_string(i) + ": " + std::to_string(got.dB[i]) + "/" + std::to_string(got.dBv[i]), std::to_string(exp.dB[i]));
+            }
+        }
+        auto a = got.edges, b = exp.edges;
+        if (!c.directed)
+            for (auto &p : a)
+                if (p.first > p.second)
+                    std::swap(p.first, p.second);
+        std::sort(a.begin(), a.end());
+        std::sort(b.begin(), b.end());
+        if (a != b)
+            return fail("edges()", a.size() > 60 ? std::to_string(a.size()) + " edges" : showEdges(got.edges), b.size() > 60 ? std::to_string(b.size()) + " edges" : showEdges(b));
+        if (!got.extra.empty()) {
+            observer = "consistency";
+            return "consistency: " + got.extra;
+        }
+        return "";
+    }
     for (unsigned i = 0; i < n; ++i)
         for (unsigned j = 0; j < n; ++j)
             if (got.has[i][j] != exp.has[i][j])
@@ -643,6 +820,12 @@ struct EngineOptions {
     bool exactWeights = true;
     bool pairValues = false; // C16: label / weight / multiplicity is a function of the pair
     bool bigMult = false;    // C16 multigraphs: per-pair multiplicities of several 10^8
+    bool light = false;      // graphs with hundreds of vertices: light observation (no all-pairs tables)
+    unsigned sparseEvery = 0; // >0: the observers run only after every k-th operation (and at the end), so that
+                              // several mutations happen between two observations (stale caches keyed on counters)
+    bool safetyOnly = false; // C17: any valid call sequence (forced duplicates followed by any mutator included, where no property
+                             // fixes the outcome): the calls and all observers run, nothing is compared; the sanitizers are the oracle
+    bool touch = true;       // read the target pair right before and right after the call (read-modify-read on one key)
     size_t maxN = 12;
 };
 
@@ -663,6 +846,7 @@ struct Engine {
     std::string prevExact;
     long double absWeightSum = 0; // sum of |w| over all ops (rounded-mode tolerance)
     size_t nOps = 0;
+    size_t extraUpdates = 0; // updates made inside one op (fill, churn): they count for the rounded-mode tolerance
     uint64_t digest = 1469598103934665603ULL;
     // removal history for C03 tags: pair -> (kind, label index)
     std::map<UPair, std::pair<std::string, long long>> removedBy;
@@ -694,6 +878,8 @@ struct Engine {
     static bool wantsAlias(const Op &op) { return !op.a.empty() && (op.a.back() == "alias" || op.a.back() == "alias2"); }
 
     // resolve the pair an op names
+    bool haveLast = false;
+    unsigned lastI = 0, lastJ = 0;
     bool resolvePair(const Op &op, unsigned &i, unsigned &j) {
         if (m.n == 0)
             return false;
@@ -711,6 +897,12 @@ struct Engine {
         }
         if (mode == 3) {
             i = j = (unsigned)(a % m.n);
+            return true;
+        }
+        if ((mode == 4 || mode == 5) && haveLast && lastI < m.n && lastJ < m.n) {
+            // the pair of the previous pair operation (5: named the other way round): several different operations in a row on one pair
+            i = mode == 4 ? lastI : lastJ;
+            j = mode == 4 ? lastJ : lastI;
             return true;
         }
         i = (unsigned)(a % m.n);
@@ -803,7 +995,7 @@ struct Engine {
                     x = -x;
             }
             const MVal *cur = m.find(i, j);
-            if (T::fam == 'M' && !force && cur && cur->k + x > 4294967295LL) {
+            if (T::fam == 'M' && (x > 4294967295LL || (!force && cur && cur->k + x > 4294967295LL))) {
                 // EdgeMultiplicity is a 32-bit unsigned: one pair cannot hold more (wrap-around is not the property)
                 skipped = true;
                 facts.tag("skipped_multiplicity_overflow");
@@ -869,6 +1061,106 @@ struct Engine {
                 }
             }
             return "";
+        }
+        if (k == "churn") {
+            // `op churn i j mode v1 v2 cnt`: the value of an existing edge set to v1, then v2, cnt times over, unobserved in between
+            // (simple graphs: the edge removed and added again): a long update history on one object
+            if (!resolvePair(op, i, j)) { skipped = true; return ""; }
+            const MVal *cur = m.find(i, j);
+            if (!cur || cur->copies != 1) { skipped = true; return ""; }
+            size_t cnt = (size_t)std::min<unsigned long long>(op.u(5), 70000);
+            facts.kinds.insert("churn");
+            facts.tag(cnt >= 65536 ? "churn_65536" : cnt >= 256 ? "churn_256" : "churn_small");
+            if constexpr (T::fam == 'W') {
+                double w1 = op.d(3), w2 = op.d(4);
+                tr("churn setEdgeWeight(" + ps(i, j) + "," + fmtW(w1) + "/" + fmtW(w2) + ") x" + std::to_string(cnt));
+                call([&] {
+                    for (size_t t = 0; t < cnt; ++t) {
+                        g.setEdgeWeight(i, j, w1);
+                        g.setEdgeWeight(i, j, w2);
+                    }
+                });
+                absWeightSum += (long double)cnt * (std::fabs((long double)w1) + std::fabs((long double)w2));
+                extraUpdates += 2 * cnt;
+                if (cnt)
+                    m.e[m.key(i, j)].w = w2;
+            } else if constexpr (T::fam == 'M') {
+                long long x1 = std::llabs(op.i(3)) % 1000 + 1, x2 = std::llabs(op.i(4)) % 1000 + 1;
+                tr("churn setEdgeMultiplicity(" + ps(i, j) + "," + std::to_string(x1) + "/" + std::to_string(x2) + ") x" + std::to_string(cnt));
+                call([&] {
+                    for (size_t t = 0; t < cnt; ++t) {
+                        g.setEdgeMultiplicity(i, j, (unsigned)x1);
+                        g.setEdgeMultiplicity(i, j, (unsigned)x2);
+                    }
+                });
+                if (cnt)
+                    m.e[m.key(i, j)].k = x2;
+            } else if constexpr (T::nolabel) {
+                tr("churn removeEdge/addEdge(" + ps(i, j) + ") x" + std::to_string(cnt));
+                call([&] {
+                    for (size_t t = 0; t < cnt; ++t) {
+                        g.removeEdge(i, j);
+                        g.addEdge(i, j);
+                    }
+                });
+            } else {
+                long long x1 = ((op.i(3) % LABEL_K) + LABEL_K) % LABEL_K, x2 = ((op.i(4) % LABEL_K) + LABEL_K) % LABEL_K;
+                if (m.singleLabel)
+                    x1 = x2 = 0;
+                tr("churn setEdgeLabel(" + ps(i, j) + ",L" + std::to_string(x1) + "/L" + std::to_string(x2) + ") x" + std::to_string(cnt));
+                call([&] {
+                    auto l1 = mkLabel(x1), l2 = mkLabel(x2);
+                    for (size_t t = 0; t < cnt; ++t) {
+                        g.setEdgeLabel(i, j, l1);
+                        g.setEdgeLabel(i, j, l2);
+                    }
+                });
+                if (cnt)
+                    m.e[m.key(i, j)].k = x2;
+            }
+            return "";
+        }
+        if (k == "fill") {
+            // one op that gives vertex a (up to) cnt neighbours a+1, a+2, ...: large degrees with few ops
+            if (m.n == 0) { skipped = true; return ""; }
+            unsigned a = (unsigned)(op.u(0) % m.n);
+            size_t cnt = std::min<size_t>((size_t)op.u(1), m.n);
+            extraUpdates += cnt;
+            bool allNoop = true;
+            for (size_t t = 1; t <= cnt; ++t) {
+                Op one;
+                one.kind = "add";
+                std::string value = T::fam == 'W' ? (op.a.size() > 2 ? op.a[2] : std::string("1")) : std::to_string(op.i(2) + (long long)t);
+                unsigned b = (unsigned)((a + t) % m.n);
+                bool flip = !T::directed && (t & 1);
+                one.a = {std::to_string(flip ? b : a), std::to_string(flip ? a : b), "0", value, (op.a.size() > 3 && op.i(3) & 1) ? "1" : "0"};
+                bool nn = false, sk = false;
+                std::string ee, ge;
+                apply(one, nn, ee, ge, sk);
+                if (!ge.empty())
+                    gotExc = ge;
+                allNoop = allNoop && (nn || sk);
+            }
+            semanticNoop = allNoop;
+            facts.kinds.insert("fill");
+            return "";
+        }
+        if (k == "xrev" || k == "xconv") {
+            // observer ops inside a history (C09): reversal / conversions checked against the model at this point
+            if constexpr (T::fam != 'L') {
+                skipped = true;
+                return "";
+            } else {
+                std::string r;
+                try {
+                    r = conversionCheck(k == "xrev");
+                } catch (const std::exception &ex) {
+                    r = std::string(k == "xrev" ? "getReversedGraph" : "conversion") + " threw " + typeid(ex).name() + ": " + ex.what();
+                }
+                semanticNoop = true;
+                facts.tag(k == "xrev" ? "reversal_in_history" : "conversion_in_history");
+                return r;
+            }
         }
         if (k == "recip" || k == "recip1") {
             if constexpr (!T::directed || T::fam == 'W') {
@@ -950,7 +1242,11 @@ struct Engine {
                     tr("removeMultiedge(" + ps(i, j) + "," + std::to_string(x) + ")");
                     call([&] { g.removeMultiedge(ri, rj, (unsigned)x); });
                 }
-                if (!cur) {
+                if (opt.safetyOnly && cur && cur->copies > 1) {
+                    // no property says what a removal leaves of a duplicated pair of a multigraph; the pair stays selectable for the next operations
+                    m.e[m.key(i, j)].copies--;
+                    facts.tag("rm_on_duplicated_pair");
+                } else if (!cur) {
                     semanticNoop = true;
                     facts.tag("noop_rm_absent");
                 } else if (x == 0) {
@@ -1029,6 +1325,10 @@ struct Engine {
                 long long x = op.i(3);
                 if (x < 0)
                     x = -x;
+                if (x > 4294967295LL) { // not an EdgeMultiplicity
+                    skipped = true;
+                    return "";
+                }
                 facts.kinds.insert("setm");
                 const MVal *cur = m.find(i, j);
                 const VertexIndex *ai = wantsAlias(op) ? aliasOf(i, false) : nullptr, *aj = wantsAlias(op) ? aliasOf(j, true) : nullptr;
@@ -1189,6 +1489,71 @@ struct Engine {
         return "";
     }
 
+    // getReversedGraph / getDirectedGraph / undirected-from-directed at the current state, compared with the model
+    std::string conversionCheck(bool reversal) {
+        if constexpr (T::fam != 'L') {
+            return "";
+        } else {
+            size_t n = m.n;
+            auto lab = [&](const L &l) { return "L" + std::to_string(labelIndex<L>(l)); };
+            if constexpr (T::directed) {
+                if (reversal) {
+                    auto r = g.getReversedGraph();
+                    if (r.getSize() != n || r.getEdgeNumber() != m.e.size())
+                        return "getReversedGraph: size/edge count " + std::to_string(r.getSize()) + "/" + std::to_string(r.getEdgeNumber()) + " expected " + std::to_string(n) + "/" + std::to_string(m.e.size());
+                    for (auto &p : m.e) {
+                        unsigned i = p.first.first, j = p.first.second;
+                        if (!r.hasEdge(j, i))
+                            return "getReversedGraph: edge (" + std::to_string(j) + "," + std::to_string(i) + ") missing";
+                        if (!T::nolabel && !(r.getEdgeLabel(j, i) == g.getEdgeLabel(i, j)))
+                            return "getReversedGraph: label of (" + std::to_string(j) + "," + std::to_string(i) + ") is " + lab(r.getEdgeLabel(j, i)) + " expected " + lab(g.getEdgeLabel(i, j));
+                        if (!T::nolabel && labelIndex<L>(g.getEdgeLabel(i, j)) != p.second.k)
+                            return "getEdgeLabel disagrees with the model";
+                    }
+                    if (!(r.getReversedGraph() == g))
+                        return "reversing twice does not give an equal graph";
+                } else {
+                    BaseGraph::LabeledUndirectedGraph<L> u(g);
+                    for (unsigned i = 0; i < n; ++i)
+                        for (unsigned j = i; j < n; ++j) {
+                            bool e = m.has(i, j) || m.has(j, i);
+                            if (u.hasEdge(i, j) != e)
+                                return "LabeledUndirectedGraph(directed): pair {" + std::to_string(i) + "," + std::to_string(j) + "} " + (e ? "missing" : "invented");
+                            if (e && !T::nolabel) {
+                                L got = u.getEdgeLabel(i, j);
+                                bool ok = (m.has(i, j) && labelIndex<L>(got) == m.find(i, j)->k) || (m.has(j, i) && labelIndex<L>(got) == m.find(j, i)->k);
+                                if (!ok)
+                                    return "LabeledUndirectedGraph(directed): label of {" + std::to_string(i) + "," + std::to_string(j) + "} is " + lab(got) + ", not the label of a directed edge between them";
+                            }
+                        }
+                }
+            } else {
+                auto d = g.getDirectedGraph();
+                size_t expect = 0;
+                for (auto &p : m.e)
+                    expect += p.first.first == p.first.second ? 1 : 2;
+                if (d.getSize() != n || d.getEdgeNumber() != expect)
+                    return "getDirectedGraph: size/edge count " + std::to_string(d.getSize()) + "/" + std::to_string(d.getEdgeNumber()) + " expected " + std::to_string(n) + "/" + std::to_string(expect);
+                for (auto &p : m.e) {
+                    unsigned i = p.first.first, j = p.first.second;
+                    for (int o = 0; o < 2; ++o) {
+                        unsigned a = o ? j : i, b = o ? i : j;
+                        if (!d.hasEdge(a, b))
+                            return "getDirectedGraph: directed edge (" + std::to_string(a) + "," + std::to_string(b) + ") missing";
+                        if (!T::nolabel && labelIndex<L>(d.getEdgeLabel(a, b)) != p.second.k)
+                            return "getDirectedGraph: label of (" + std::to_string(a) + "," + std::to_string(b) + ") is " + lab(d.getEdgeLabel(a, b)) + " expected L" + std::to_string(p.second.k);
+                    }
+                }
+                if (!reversal) {
+                    BaseGraph::LabeledUndirectedGraph<L> back(d);
+                    if (!(back == g))
+                        return "undirected -> directed -> undirected is not the identity";
+                }
+            }
+            return "";
+        }
+    }
+
     CmpOptions cmpOptions() const {
         CmpOptions c;
         c.directed = T::directed;
@@ -1196,7 +1561,7 @@ struct Engine {
         c.dupState = m.anyDup();
         c.exactWeights = opt.exactWeights;
         // (m+1) * 2^-50 * (1 + sum|w|)
-        c.weightTol = (long double)(nOps + 1) * std::ldexp(1.0L, -50) * (1.0L + absWeightSum);
+        c.weightTol = (long double)(nOps + extraUpdates + 1) * std::ldexp(1.0L, -50) * (1.0L + absWeightSum);
         return c;
     }
 
@@ -1205,13 +1570,42 @@ struct Engine {
         Obs got, exp;
         ObsOptions oo;
         oo.hasLabelSets = opt.hasLabelSets && T::fam == 'L' && !T::nolabel;
+        ExpectOptions eo;
+        if (opt.light) {
+            oo.light = true;
+            std::set<UPair> ps;
+            for (auto &p : m.e) {
+                ps.insert(p.first);
+                ps.insert(UPair(p.first.second, p.first.first));
+            }
+            for (auto &p : removedBy) {
+                ps.insert(p.first);
+                ps.insert(UPair(p.first.second, p.first.first));
+            }
+            if (m.n) {
+                unsigned last = (unsigned)m.n - 1;
+                ps.insert(UPair(0, 0));
+                ps.insert(UPair(last, last));
+                ps.insert(UPair(0, last));
+                ps.insert(UPair(last, 0));
+                ps.insert(UPair(last / 2, last));
+            }
+            oo.pairs.assign(ps.begin(), ps.end());
+            eo.light = true;
+            eo.pairs = oo.pairs;
+        }
         try {
             observe(g, got, oo);
         } catch (const std::exception &ex) {
+            if (opt.safetyOnly)
+                return "";
             observer = "observer-threw";
             return std::string("an observer threw ") + typeid(ex).name() + ": " + ex.what();
         }
-        ExpectOptions eo;
+        if (opt.safetyOnly) {
+            digest = fnv1a(obsText(got, true, T::directed), digest);
+            return "";
+        }
         eo.hasLabelSets = oo.hasLabelSets;
         expectedObs(m, exp, eo);
         std::string r = compareObs(got, exp, cmpOptions(), observer);
@@ -1238,7 +1632,37 @@ struct Engine {
         std::string before = lastExact;
         long double beforeW = lastTotalW;
         ++nOps;
-        apply(op, noop, expectExc, gotExc, skipped);
+        // read the target pair right before the call ...
+        unsigned ti = 0, tj = 0;
+        bool touched = false, havePair = false;
+        {
+            const std::string &kk = op.kind;
+            bool pairOp = kk == "add" || kk == "add1" || kk == "recip" || kk == "recip1" || kk == "rm" || kk == "rmk" || kk == "setl" || kk == "setm" || kk == "setw" || kk == "churn";
+            havePair = pairOp && resolvePair(op, ti, tj);
+            if (opt.touch && !opt.safetyOnly && havePair) {
+                touched = true;
+                std::string r0 = touchPair(ti, tj, (nOps & 1) != 0, observer);
+                if (!r0.empty())
+                    return "before the call: " + r0;
+            }
+        }
+        std::string applied = apply(op, noop, expectExc, gotExc, skipped);
+        if (havePair) {
+            if (haveLast && ((lastI == ti && lastJ == tj) || (lastI == tj && lastJ == ti)) && !skipped)
+                facts.tag("same_pair_as_previous_op");
+            haveLast = true;
+            lastI = ti;
+            lastJ = tj;
+        }
+        if (opt.safetyOnly) {
+            if (!gotExc.empty())
+                facts.tag("call_threw");
+            return checkNow(observer);
+        }
+        if (!applied.empty()) {
+            observer = "conversion";
+            return applied;
+        }
         if (skipped) {
             facts.tag("skipped_op");
             return "";
@@ -1248,6 +1672,19 @@ struct Engine {
         if (gotExc != expectExc) {
             observer = "exception";
             return "call threw '" + gotExc + "' but the documented outcome is '" + (expectExc.empty() ? "returns normally" : expectExc) + "'";
+        }
+        // ... and right after it, the orientation read last before the call first (a memo of the last lookup must not survive)
+        if (touched && ti < m.n && tj < m.n) {
+            std::string r1 = touchPair(ti, tj, (nOps & 1) == 0, observer);
+            if (!r1.empty())
+                return "first read after the call: " + r1;
+            facts.tag("read_modify_read");
+        }
+        if (opt.sparseEvery > 1 && (nOps % opt.sparseEvery) != 0) {
+            // no full observation after this step
+            lastExact.clear();
+            facts.tag("unobserved_step");
+            return "";
         }
         std::string r = checkNow(observer);
         if (!r.empty())
@@ -1272,6 +1709,42 @@ struct Engine {
     }
 
     std::string start(std::string &observer) { return checkNow(observer); }
+    // last step of a history (needed when observations are sparse)
+    std::string finish(std::string &observer) {
+        if (opt.sparseEvery > 1)
+            return checkNow(observer);
+        return "";
+    }
+
+    std::string expectedPair(unsigned i, unsigned j) const {
+        const MVal *v = m.find(i, j);
+        std::string val;
+        if (m.fam == 'L')
+            val = m.nolabel ? "-" : (v ? "L" + std::to_string(v->k) : "!invalid_argument");
+        else if (m.fam == 'M')
+            val = v ? std::to_string(v->k) : "0";
+        else
+            val = v ? fmtW(v->w) : "!invalid_argument";
+        return std::string(v ? "1" : "0") + "|" + val;
+    }
+    // hasEdge and the throwing getter on (i,j) and (j,i), in the given order, compared with the model
+    std::string touchPair(unsigned i, unsigned j, bool reversedFirst, std::string &observer) {
+        for (int k = 0; k < 2; ++k) {
+            bool rev = (k == 0) == reversedFirst;
+            unsigned a = rev ? j : i, b = rev ? i : j;
+            std::string val, valnt;
+            std::string h = guarded([&] { return std::string(g.hasEdge(a, b) ? "1" : "0"); });
+            pairStrings(g, a, b, val, valnt);
+            std::string got = h + "|" + val, exp = expectedPair(a, b);
+            if (got != exp) {
+                observer = T::fam == 'L' ? "getEdgeLabel" : T::fam == 'M' ? "getEdgeMultiplicity" : "getEdgeWeight";
+                return "hasEdge|value of (" + std::to_string(a) + "," + std::to_string(b) + ") is " + got + " expected " + exp;
+            }
+            if (i == j)
+                break;
+        }
+        return "";
+    }
 
     // C16: once no duplicate is left, the graph must equal the one built from the
     // model with unforced calls only.
